@@ -379,8 +379,8 @@ def lockstep_single_cell(case, raw, stats):
     sig = {"mode": "lineage"}
     if raw.get("error") or raw.get("dropped") or raw.get("rows") is None:
         return viols
-    lm = {"model": case["model"], "growth": {"kind": "rule_linear", "rate": 0.01}, "division": {"kind": "none"}, "death": None,
-          "splitter": None}
+    lm = {"model": case["model"], "growth": {"kind": "rule_linear", "rate": 0.01}, "division": {"kind": "none"},
+          "death": case.get("lin_death"), "splitter": None}
     tape = tr.Tape(raw["recs"])
     ref = LinRef(lm, case["grid"], tape, safe=bool(case.get("safe")))
     x0 = {s: float(case["model"]["init"].get(s, 0)) for s in ref.species}
